@@ -391,6 +391,20 @@ def assign_values(which: int, v: int, w: int) -> bool:
     elif which == 10:    # S-expression value with backfill
         glom(t, (S(val=T['src']['n']), Assign('new2.a', S['val'], missing=dict)), glom_debug=True)
         ok = t['new2'] == {'a': v}
+    elif 12 <= which <= 16:
+        # the value is an instance of a dict / list SUBCLASS (a literal like any other object): the stored object is that very
+        # object -- default_factory, instance attributes and contents intact -- also through missing= and a wildcard
+        import collections
+        val = [collections.defaultdict(list, {'k': [v]}), collections.Counter({'a': 2}), MyDict(k=v), MyList([v, w]),
+               collections.OrderedDict([('z', v), ('a', w)])][which - 12]
+        if which == 14:
+            val.note = 'attribute'
+        assign(t, 'dst.x', val)
+        assign(t, 'made.up.x', val, missing=dict)
+        t['rows'] = [{}, {}]
+        assign(t, 'rows.*.x', val)
+        ok = t['dst']['x'] is val and t['made']['up']['x'] is val and t['rows'][0]['x'] is val and t['rows'][1]['x'] is val
+        ok = ok and (which != 12 or val.default_factory is list) and (which != 14 or val.note == 'attribute')
     else:
         glom(t, (S(acc=Val({})), Assign(S['acc']['y'], T['src']['n']), Assign('dst.x', S['acc'])), glom_debug=True)
         ok = t['dst']['x'] == {'y': v}
@@ -546,7 +560,7 @@ def obligations(tier):
     obs.append(Ob(assign_attach_last, pre='0 <= depth_present <= 3 and 0 <= style <= 2', name='assign_attach_last'))
     for shape in range(5):
         obs.append(Ob(assign_wild, fixed={'shape': shape}, pre='1 <= n <= 3', name='assign_wild_%d' % shape))
-    obs.append(Ob(assign_values, pre='0 <= which <= 11', name='assign_values'))
+    obs.append(Ob(assign_values, pre='0 <= which <= 17', name='assign_values'))
     for k1 in range(4):
         obs.append(Ob(assign_reuse, fixed={'k1': k1}, pre='0 <= k2 <= 3 and 0 <= seg <= 1 and 0 <= style <= 1', name='assign_reuse_%d' % k1))
         obs.append(Ob(assign_wild_mixed, fixed={'k0': k1}, pre='0 <= k1 <= 3 and 0 <= k2 <= 3 and 0 <= seg <= 1', name='assign_wild_mixed_%d' % k1))
